@@ -120,6 +120,19 @@ fn decoder_thread() -> std::result::Result<std::sync::mpsc::Sender<DecodeJob>, S
                         let mut cur = Cursor::new(buf);
                         cur.set_position(7);
                         DiameterMessage::decode_from(&mut cur, dict)
+                    } else if via_codec == 3 {
+                        // a buffered reader over a capture (a BufReader over a file) in which the frame does not start at a buffer boundary: its read() hands out
+                        // what is left in its buffer - often less than asked for - and the frame straddles the buffer's end
+                        let cap = [64usize, 8192][bytes.len() % 2];
+                        let lead = (cap - (bytes.len() / 3) % cap.min(bytes.len().max(1))) % cap;
+                        let mut buf = vec![0x5au8; lead];
+                        buf.extend_from_slice(&bytes);
+                        // (nothing behind the frame: what a decoder does with octets beyond the frame it was given is the XM family's
+                        // business - and the known finding KF-1's)
+                        let mut rd = std::io::BufReader::with_capacity(cap, Cursor::new(buf));
+                        let mut skip = vec![0u8; lead];
+                        let _ = std::io::Read::read_exact(&mut rd, &mut skip);
+                        DiameterMessage::decode_from(&mut rd, dict)
                     } else {
                         let mut cur = Cursor::new(bytes);
                         DiameterMessage::decode_from(&mut cur, dict)
@@ -225,7 +238,7 @@ fn build_history(st: &State, t: &mut Toks) -> PResult<std::result::Result<(Diame
             // Codec::decode whole: every third such frame is decoded that way, every third from a reader in which it does
             // not start at position 0 (the message must be the same one)
             let announced = if bytes.len() >= 4 { ((bytes[1] as usize) << 16) | ((bytes[2] as usize) << 8) | bytes[3] as usize } else { 0 };
-            let via_codec = if announced == bytes.len() && (20..=1024 * 1024).contains(&announced) { ((announced / 4) % 3) as u8 } else { 0 };
+            let via_codec = if announced == bytes.len() && (20..=1024 * 1024).contains(&announced) { ((announced / 4) % 4) as u8 } else { 0 };
             match decode_isolated_via(bytes, Arc::clone(&dict), via_codec) {
                 Ok(Ok(m)) => m,
                 Ok(Err(_)) => return Ok(Err("R err".into())),
@@ -698,7 +711,7 @@ fn run_decode(st: &State, t: &mut Toks) -> PResult<String> {
     // as for decoded starting points: a frame that is exactly as long as it announces goes, in turn, through decode_from at
     // position 0, through Codec::decode (what a connection does with it) and through decode_from at an offset
     let announced = if bytes.len() >= 4 { ((bytes[1] as usize) << 16) | ((bytes[2] as usize) << 8) | bytes[3] as usize } else { 0 };
-    let via = if announced == bytes.len() && (20..=1024 * 1024).contains(&announced) { ((announced / 4 + bytes[bytes.len() - 1] as usize) % 3) as u8 } else { 0 };
+    let via = if announced == bytes.len() && (20..=1024 * 1024).contains(&announced) { ((announced / 4 + bytes[bytes.len() - 1] as usize) % 4) as u8 } else { 0 };
     Ok(decoded_obs(decode_isolated_via(bytes, dict, via)))
 }
 
@@ -1222,6 +1235,103 @@ pub fn handle(st: &mut State, line: &str) -> String {
                 }).map_err(|e| e.to_string())?;
                 Ok(match h.join() { Ok(true) => "OK".into(), Ok(false) => "SMALLSTACK wrong-value".into(), Err(_) => "SMALLSTACK panicked".into() })
             }
+            // SMALLENC <KiB> <history>: the message is built here and encoded on a thread with a stack of that many KiB; the octets are
+            // compared with the encoding made on this thread
+            "SMALLENC" => {
+                let kib = t.usize_dec()?;
+                let m = match build_history_pub(st, &mut t)? { Ok(m) => m, Err(l) => return Ok(format!("SMALLENC build-failed {}", l)) };
+                let mut here = Vec::new();
+                let ok_here = m.encode_to(&mut here).is_ok();
+                let h = std::thread::Builder::new().stack_size(kib * 1024).spawn(move || {
+                    let mut v = Vec::new();
+                    let ok = m.encode_to(&mut v).is_ok();
+                    (ok, v)
+                }).map_err(|e| e.to_string())?;
+                Ok(match h.join() {
+                    Ok((ok, v)) if ok == ok_here && v == here => "OK".into(),
+                    Ok(_) => "SMALLENC differs".into(),
+                    Err(_) => "SMALLENC panicked".into(),
+                })
+            }
+            // UNKNAMES <dict> <millions>: that many million names no dictionary declares ("Vendor-Attribute-<n>", "Subscriber-Tag-<n>",
+            // "Custom-AVP-<n>"), eight threads: how many of them `Avp::from_name` did NOT refuse
+            "UNKNAMES" => {
+                let dict = st.dicts.get(t.next()?).ok_or_else(|| "unknown dict".to_string())?.clone();
+                let millions = t.usize_dec()?;
+                let per = millions * 1_000_000 / 8;
+                let mut hs = Vec::new();
+                for k in 0..8usize {
+                    let d = Arc::clone(&dict);
+                    hs.push(std::thread::spawn(move || {
+                        use std::fmt::Write as _;
+                        let mut accepted = 0usize;
+                        let mut first = String::new();
+                        let mut name = String::with_capacity(40);
+                        let v: AvpValue = Unsigned32::new(1).into();
+                        for i in 0..per {
+                            name.clear();
+                            let n = k * per + i;
+                            let _ = write!(name, "{}-{}", ["Vendor-Attribute", "Subscriber-Tag", "Custom-AVP"][n % 3], n);
+                            if Avp::from_name(&name, v.clone(), Arc::clone(&d)).is_ok() {
+                                accepted += 1;
+                                if first.is_empty() { first = name.clone(); }
+                            }
+                        }
+                        (accepted, first)
+                    }));
+                }
+                let (mut acc, mut first) = (0usize, String::new());
+                for h in hs {
+                    let (a, f) = h.join().map_err(|_| "thread died".to_string())?;
+                    acc += a;
+                    if first.is_empty() { first = f; }
+                }
+                Ok(format!("UNKNAMES tried={} accepted={} {}", per * 8, acc, first))
+            }
+            // THREADS <n>: n short-lived threads, one after the other, each decoding and encoding a few fixed-size values
+            "THREADS" => {
+                let n = t.usize_dec()?;
+                let mut bad = 0usize;
+                let mut first = String::new();
+                for i in 0..n {
+                    let h = std::thread::spawn(move || {
+                        let w = (0x8000_0000u32).wrapping_add(i as u32 * 977);
+                        let mut c = Cursor::new(w.to_be_bytes().to_vec());
+                        let mut good = matches!(Unsigned32::decode_from(&mut c), Ok(v) if v.value() == w);
+                        let mut c = Cursor::new(w.to_be_bytes().to_vec());
+                        good &= Time::decode_from(&mut c).is_ok();
+                        let mut v = Vec::new();
+                        good &= Integer32::new(-(i as i32)).encode_to(&mut v).is_ok() && v == (-(i as i32)).to_be_bytes();
+                        good
+                    });
+                    match h.join() {
+                        Ok(true) => {}
+                        Ok(false) => { bad += 1; if first.is_empty() { first = format!("thread{}:wrong", i); } }
+                        Err(_) => { bad += 1; if first.is_empty() { first = format!("thread{}:panic", i); } }
+                    }
+                }
+                Ok(format!("THREADS n={} bad={} {}", n, bad, first))
+            }
+            // TIMEFRAC: Time AVPs built from instants with a sub-second part, at top level and inside a group: the accessor hands back
+            // the instant that was put in (the wire carries whole seconds; a built message is not the wire)
+            "TIMEFRAC" => {
+                use chrono::TimeZone;
+                let dict = st.dicts.get("b").ok_or_else(|| "dict b missing".to_string())?.clone();
+                let mut bad = Vec::new();
+                for (k, nanos) in [1u32, 500_000_000, 999_999_999, 123_456_789, 0].iter().enumerate() {
+                    let ts = chrono::Utc.timestamp_opt(1_700_000_000 + k as i64, *nanos).single().ok_or("ts")?;
+                    let mut m = DiameterMessage::new(CommandCode::CreditControl, ApplicationId::CreditControl, 0x80, 1, 2, Arc::clone(&dict));
+                    m.add_avp(55, None, 0x40, Time::new(ts).into());
+                    let mut g = Grouped::new(vec![], Arc::clone(&dict));
+                    g.add_avp(55, None, 0x40, Time::new(ts).into());
+                    m.add_avp(456, None, 0x40, g.into());
+                    let top = m.get_avp(55).and_then(|a| a.get_time()).map(|t| *t.value());
+                    let inner = m.get_avp(456).and_then(|a| a.get_grouped()).and_then(|g| g.avps().first().and_then(|a| a.get_time()).map(|t| *t.value()));
+                    if top != Some(ts) { bad.push(format!("top:{}ns", nanos)); }
+                    if inner != Some(ts) { bad.push(format!("member:{}ns", nanos)); }
+                }
+                Ok(if bad.is_empty() { "OK".into() } else { format!("TIMEFRAC {}", bad.join(",")) })
+            }
             "XM" => run_decode_multi(st, &mut t),
             // XP <dict> <k> <frame>: decode_from on a reader that already stands k octets PAST the end of what it holds
             "XP" => {
@@ -1304,6 +1414,16 @@ pub fn handle(st: &mut State, line: &str) -> String {
                 Ok("OK".into())
             }
             "LEAFDEC" => leaf_dec(&mut t, false),
+            // LEAFAFTER <dict> <frame> <ty> <n> <octets>: a whole message is decoded on THIS thread first (result ignored), then the value
+            "LEAFAFTER" => {
+                let dict = st.dicts.get(t.next()?).ok_or_else(|| "unknown dict".to_string())?.clone();
+                let frame = t.bytes()?;
+                let _ = catch_unwind(AssertUnwindSafe(|| {
+                    let mut cur = Cursor::new(frame);
+                    let _ = DiameterMessage::decode_from(&mut cur, dict);
+                }));
+                leaf_dec(&mut t, false)
+            }
             "LEAFDECD" => leaf_dec(&mut t, true),
             "LEAFDECI" => leaf_dec_interrupted(&mut t),
             "LEAFENC" => leaf_enc(&mut t),
